@@ -444,6 +444,110 @@ def runKpm (j : Json) : Except String String := do
 end KpmCmd
 
 
+
+/-! ## `prog`: an arbitrary program of the mini-language (as JSON) evaluated by the reference evaluator in a parametrised scope -/
+namespace ProgCmd
+
+partial def parseExpr (j : Json) : Except String Dsl.Expr := do
+  let op ← j.getObjValAs? String "op"
+  match op with
+  | "ser" => do pure (.ser (← j.getObjValAs? String "x"))
+  | "adj" => do pure (.adj (← j.getObjValAs? String "x"))
+  | "zero" => pure .zero
+  | "neg" => do pure (.neg (← parseExpr (← j.getObjVal? "e")))
+  | "add" => do pure (.add (← parseExpr (← j.getObjVal? "a")) (← parseExpr (← j.getObjVal? "b")))
+  | "sub" => do pure (.sub (← parseExpr (← j.getObjVal? "a")) (← parseExpr (← j.getObjVal? "b")))
+  | "divInt" => do pure (.divInt (← parseExpr (← j.getObjVal? "e")) (← j.getObjValAs? Int "k"))
+  | "callSer" => do pure (.callSer (← j.getObjValAs? String "f") (← j.getObjValAs? String "x"))
+  | "callExpr" => do pure (.callExpr (← j.getObjValAs? String "f") (← parseExpr (← j.getObjVal? "e")))
+  | "ite" => do
+      let fj ← j.getObjVal? "flag"
+      let s ← fj.getObjValAs? String "s"
+      let fl : Dsl.Flag := if (← fj.getObjValAs? String "kind") == "indexed" then .indexed s else .name s
+      pure (.ite fl (← parseExpr (← j.getObjVal? "t")) (← parseExpr (← j.getObjVal? "e")))
+  | o => throw s!"unknown expression {o}"
+
+def parseProg (j : Json) : Except String Dsl.Prog := do
+  let series ← (← getArr j "series").toList.mapM fun sj => do
+    let name ← sj.getObjValAs? String "name"
+    let stj ← sj.getObjVal? "start"
+    let start : Dsl.Start ← match (← stj.getObjValAs? String "kind") with
+      | "none" => pure .none | "zero" => pure .zero | "one" => pure .one
+      | "input" => do pure (.input (← stj.getObjValAs? String "x"))
+      | k => throw s!"unknown start {k}"
+    let body ← (← getArr sj "body").toList.mapM fun b => do
+      match (← b.getObjValAs? String "kind") with
+      | "marker" => do pure (Dsl.Stmt.marker (← b.getObjValAs? Bool "anti"))
+      | "clause" => do
+          let c : Dsl.Cond ← match (← b.getObjValAs? String "cond") with
+            | "default" => pure .default | "diagonal" => pure .diagonal | "offdiagonal" => pure .offdiagonal | "lower" => pure .lower
+            | k => throw s!"unknown condition {k}"
+          pure (Dsl.Stmt.clause c (← parseExpr (← b.getObjVal? "expr")))
+      | k => throw s!"unknown statement {k}"
+    pure ({ name, start, body } : Dsl.SeriesDef)
+  let products ← (← getArr j "products").toList.mapM fun pj => do
+    let terms ← (← getArr pj "terms").toList.mapM fun t => t.getStr?
+    pure ({ terms, hermitian := ← pj.getObjValAs? Bool "hermitian" } : Dsl.ProdDef)
+  let outputs ← (← getArr j "outputs").toList.mapM fun t => t.getStr?
+  pure { series, products, outputs }
+
+def scaleMat (m : Mat GRat) (c : GRat) : Mat GRat := Mat.ofFn m.d fun a b => m.get a b * c
+
+def runProg (j : Json) : Except String (List String) := do
+  let prog ← parseProg (← j.getObjVal? "prog")
+  let d ← j.getObjValAs? Nat "d"
+  let blocks := (← natList (← getArr j "blocks")).toArray
+  let nblocks ← j.getObjValAs? Nat "nblocks"
+  let inputNames ← (← getArr j "input_names").toList.mapM fun t => t.getStr?
+  let inputData ← (← getArr j "inputs").toList.mapM fun e => do
+    pure ((← e.getObjValAs? String "name", ← natList (← getArr e "idx")), ← parseMat d (← e.getObjVal? "mat"))
+  let flags ← (← getArr j "flags").toList.mapM fun e => do pure (← e.getObjValAs? String "name", ← e.getObjValAs? Bool "value")
+  let iflags ← (← getArr j "iflags").toList.mapM fun e => do
+    pure (← e.getObjValAs? String "name", ← (← getArr e "values").toList.mapM fun b => b.getBool?)
+  let fns ← (← getArr j "fns").toList.mapM fun e => do
+    pure (← e.getObjValAs? String "name", ← parseGRat (← e.getObjValAs? String "c1"), ← parseGRat (← e.getObjValAs? String "c2"))
+  let offd : Option GRat ← match j.getObjVal? "offdiag" with
+    | .ok (.str s) => do pure (some (← parseGRat s))
+    | _ => pure none
+  let blk : Nat → Nat := fun a => blocks.getD a 0
+  let input : String → Idx → SVal GRat := fun h idx =>
+    match inputData.find? (·.1 == (h, idx.i :: idx.j :: idx.n)) with
+    | some (_, m) => .val m
+    | none => .zero
+  let fac : GRat → GRat → Idx → GRat := fun c1 c2 idx => c1 + c2 * GRat.ofRat (((idx.i + 2 * idx.j : Nat) : Int) : Rat)
+  let env : Env GRat := {
+    d, nblocks,
+    blockOne := fun i => Mat.blockOne d fun a => blk a == i,
+    input, inputs := inputNames,
+    fn := fun f arg idx => match fns.find? (·.1 == f) with
+      | none => throw (.scope s!"unknown function {f}")
+      | some (_, c1, c2) =>
+          let v : SVal GRat := match arg with
+            | .inl x => input x idx           -- a series argument is indexed by the function itself (inputs only)
+            | .inr v => v
+          match v with
+          | .zero => pure .zero
+          | .one => throw .oneInArithmetic
+          | .val m => pure (.val (scaleMat m (fac c1 c2 idx))),
+    flagName := fun s => match flags.find? (·.1 == s) with | some (_, b) => b | none => false,
+    flagIdx := fun s i => match iflags.find? (·.1 == s) with | some (_, l) => l.getD i false | none => false,
+    diag := fun v _ => v,
+    offdiag := offd.map fun c => fun v _ => match v with
+      | .val m => .val (scaleMat m c)
+      | w => w }
+  let mut cache : Cache GRat := {}
+  let mut out : List String := []
+  for r in (← getArr j "requests").toList do
+    let name ← r.getObjValAs? String "name"
+    let i ← r.getObjValAs? Nat "i"
+    let jj ← r.getObjValAs? Nat "j"
+    let n ← natList (← getArr r "n")
+    match getElem prog env 100000 name ⟨i, jj, n⟩ cache with
+    | .ok (v, c) => cache := c; out := showVal env i v :: out
+    | .error e => out := showErr e :: out
+  pure out.reverse
+end ProgCmd
+
 /-! ## `taylor`: the Taylor term of a polynomial entry as `_sympy_to_BlockSeries` computes it -/
 namespace TaylorCmd
 def showRat (q : Rat) : String := s!"{q.num}/{q.den}"
@@ -480,6 +584,10 @@ partial def loop (h : IO.FS.Stream) : IO Unit := do
     | .ok "nof" =>
       match runNof j with
       | .ok l => IO.println l
+      | .error e => IO.println s!"bad-request {e}"
+    | .ok "prog" =>
+      match ProgCmd.runProg j with
+      | .ok ls => IO.println (String.intercalate "|" ls)
       | .error e => IO.println s!"bad-request {e}"
     | .ok "taylor" =>
       match TaylorCmd.runTaylor j with
